@@ -37,6 +37,7 @@ class BitMonitor:
         def after_read(bb, args, kwargs, res, exc, token):
             if exc is not None:
                 mon.ctx.event("bitbuffer.read_raised")
+                mon.units.pop(id(bb), None)  # the buffer may have refilled before raising: no unit to reason about
                 return
             ft, bits = args[0], args[1]
             total = ft.size * 8
